@@ -31,6 +31,9 @@ pub(crate) fn register_variant_fields(e: &ItemEnum) {
 fn variant_fields(en: &str, v: &str) -> Option<Vec<String>> {
     VARIANT_FIELDS.with(|m| m.borrow().get(&format!("{en}::{v}")).cloned())
 }
+pub(crate) fn variant_fields_of(en: &str, v: &str) -> Option<Vec<String>> {
+    variant_fields(en, v)
+}
 pub(crate) fn mark_ext_fn(lean: &str) {
     EXT_FNS.with(|s| { s.borrow_mut().insert(lean.to_string()); });
 }
